@@ -43,6 +43,10 @@ CHECKS = {
          "explicit-state model of the host/container RPC (9 actors, every hook point a labelled transition) searched exhaustively per script; every controllable schedule replayed on a real container through verif gates; the implementation's merged event log must be accepted by the model (subset simulation), each call must return its own answer and the environment must stay usable",
          "Model: caller, two host pumps, two container pumps, server, wait goroutine, child, context; capacity-1 channels and socket queues explicit; messages tagged with the call that caused them. Invariants on every reachable state: a reply is consumed only by its own call, ok/kill are never dispatched as top-level commands and no command is swallowed inside an execve, no deadlock, quiescence at the end. Scripts: all single operations over a 17-operation alphabet (ping, open ok/item error/empty, delete error, symlink ok/error, reset, execve rejected before fork / empty args / failing before sync / callback failing / exec failing after sync / running; the same with sync after exec) x 4 schedules of a running execve (exit->result, cancel->kill, result held + cancel first, child ended but unreported + kill first), pairs (thorough: all pairs, triples over the execve family) and a usability suffix (ping + trivial execve). Each script's model is explored completely (states/transitions reported), then replayed on a real container; every hook event of both endpoints plus harness events (SYNCFUNC, CANCEL, RETURN) is fed to the acceptor. Oversized requests are a separate implementation-only family.",
          "Gate granularity is the named point / protocol message; Go's random choice among simultaneously ready select cases is never exercised (exactly one case is made ready). The model is written from container/doc.go and the property, and is itself checked for its invariants before it judges the code. Open finding: requests above the 32 KiB frame make the environment unusable."),
+ "C11": ("model_checking",
+         "pinned-schedule enumeration on the real runners through gates (verif named points, callbacks, tracer steps, a child gate before setsid): one deterministic execution per cancellation / Destroy instant; shares the C10 model's gate machinery",
+         "Container (sync before and after exec, program that never ends / exits 7): cancel before the call, inside the callback, with the host held at send-pre/post(execve), recv(pid), send-pre/post(ok), select, with the result held in flight, with the child ended but unreported, with the container held at started / select / send-pre(result). Tracer: cancel before Trace, with the child held before setsid (with and without callback), inside the callback, at every tracer step (each Debug call). Namespace runner: before Run, inside the callback, while the program provably runs. Destroy: while Execve (both programs) / Open / Ping is in flight, with a host pump or the caller held at each host point, with the container held at dispatch / started / select / reply withheld / after a cancellation's kill was taken. Oracle: the call returns within 10 s with TLE or the genuine verdict, never Runner Error or Disallowed Syscall; no process of the run survives; the environment is usable after a cancel; after Destroy the in-flight call has returned, Destroy returned and the init is gone.",
+         "Instants strictly between two consecutive gates are not pinned (a continuous sweep would be sampling). Which instant a Destroy lands on while a side is held relies on a 30 ms pause (it affects which instant is exercised, not the oracle)."),
  "C15": ("exploration",
          "bounded-exhaustive enumeration of hostile syscall arguments (one operation per run) and of SIGKILL instants at every tracer step, on a real tracer and tracee; oracle: the result is a verdict about the program, never Runner Error, and the run returns",
          "Every traced path syscall (25) x pointer kind for every path argument {NULL, unmapped, kernel half, odd, short string, 4095/4096/4097/8192 bytes without NUL, string ending exactly at / crossing into a PROT_NONE page} x dirfd encoding {AT_FDCWD, 64-bit garbage, (thorough) -1, closed, zero-extended AT_FDCWD} x {soft-ban-all, allow-all policy}; syscall numbers unknown / negative / x32 / above 2^32; unreadable, short and NULL open_how; and a fork+thread program in which the main process or the most recently reported task is SIGKILLed at the k-th tracer step for every k (each Debug call of the tracer loop, including 'before PTRACE_SETOPTIONS' and 'between trap and skip').",
@@ -111,6 +115,6 @@ def main():
         print("valid", os.path.basename(p))
     print("MANIFEST ok: %d checks, %d not_applicable" % (len(checks), len(na)))
 
-HOOK_COMMITS = ["80feaaa"]
+HOOK_COMMITS = ["80feaaa", "b57f636"]
 if __name__ == "__main__":
     main()
